@@ -52,4 +52,6 @@ d2451f6 C18
 a46d743 C13 C14
 a1887f0 C02
 58715e3 C01
+50b17e8 C12
+c4bdc93 C12
 LIST
